@@ -69,11 +69,23 @@ Definition rc_pass4 (K : keysel) (keep : bool) (g : xits) : rcx_state :=
   (fst (rc_pass3 K keep g), fold_left (step_reconnect (fst (rc_pass3 K keep g))) (gedges g) (snd (rc_pass3 K keep g))).
 
 Definition tstate (st : rcx_state) : tok := L [tlist txnode (fst st); tset txedge (snd st)].
-Definition run_steps (K : keysel) (keep : bool) (g : xits) : tok :=
-  L [tstate (rc_pass1 K keep g); tstate (rc_pass2 K keep g); tstate (rc_pass3 K keep g); tstate (rc_pass4 K keep g)].
 
 (** _should_include_edge(std, is_mtg_attr, keep_mtg) for is_mtg_attr, keep_mtg in {False, True}^2, and _is_hydrogen(element) *)
 Definition run_truth (stds : list Z) (els : list (lab N)) : tok :=
   L [tlist (fun s => L [tbool (include_x false (IE 0 0 s, Some false)); tbool (include_x false (IE 0 0 s, Some true));
                         tbool (include_x true (IE 0 0 s, Some false)); tbool (include_x true (IE 0 0 s, Some true))]) stds;
      tlist (fun l => tbool (ish_lab l)) els].
+
+(** ** _add_bond_order_changes(ITS, rc, keys, bond_key, standard_key): the "step 1" helper of the older get_rc (still in the file, no
+    caller): bonds whose two orders differ (standard_order is NOT consulted), with order and standard_order only (no is_mtg key),
+    and their endpoints through _carry_node_attrs.  rc.add_edge on an existing pair overwrites its attributes: last wins — the
+    edge list of a well-formed ITS has one entry per pair, so the fold below appends. *)
+Definition abo_step (K : keysel) (g : xits) (st : rcx_state) (e : N * N * xedge) : rcx_state :=
+  let '(u, v, x) := e in
+  if e_G (fst x) =? e_H (fst x) then st
+  else (ensure_x (sel_attr K) g v (ensure_x (sel_attr K) g u (fst st)), snd st ++ [(u, v, out_edge_rec x)]).
+Definition add_bond_order_changes (K : keysel) (g : xits) : rcx_state := fold_left (abo_step K g) (gedges g) ([], []).
+(** the four passes on one rc graph, then _add_bond_order_changes on a fresh one *)
+Definition run_steps (K : keysel) (keep : bool) (g : xits) : tok :=
+  L [tstate (rc_pass1 K keep g); tstate (rc_pass2 K keep g); tstate (rc_pass3 K keep g); tstate (rc_pass4 K keep g);
+     tstate (add_bond_order_changes K g)].
